@@ -7,4 +7,4 @@ import (
 )
 
 func bech32Encode(hrp string, b []byte) (string, error) { return bech32.Encode(hrp, b) }
-func stdB64(b []byte) string                             { return base64.StdEncoding.EncodeToString(b) }
+func stdB64(b []byte) string                            { return base64.StdEncoding.EncodeToString(b) }
